@@ -43,6 +43,13 @@ FIELD_SORTS: dict[str, tuple[tuple, object]] = {
     "net_to": ((Ref,), z3.SeqSort(Int)),
     "net_arrow": ((Ref,), z3.SeqSort(Int)),    # 1 = arrowed ("arrows": "to"), 0 = plain
     "net_directed": ((Ref,), Bool),
+    # singleton registries (structure/singleton.py)
+    "tmap_has": ((Cls,), Bool),          # class has a TrueSingleton instance
+    "tmap_val": ((Cls,), Ref),
+    "smap_has": ((Ref, Ref), Bool),      # (metaclass object, key) is a live semi-singleton mapping
+    "smap_val": ((Ref, Ref), Ref),
+    "init_count": ((Ref,), Int),         # ghost: how often __init__ ran on the object
+    "init_args": ((Ref,), Ref),          # ghost: the (args, kwargs) of that run
     # dynamic instance attributes (attributes=, setattr, temporaries)
     "dyn_has": ((Ref, Str), Bool),
     "dyn_val": ((Ref, Str), Ref),
